@@ -40,6 +40,8 @@ def gen_script(rng):
     def date():
         day[0] += rng.choice([1, 1, 2, 5, 40])
         d = day[0]
+        if d > 60 and rng.random() < 0.12:
+            d -= rng.randint(20, 60)          # an author date EARLIER than that of the commit before (rebase, cherry-pick, --date)
         return "20%02d-%02d-%02d" % (19 + d // 336, 1 + (d // 28) % 12, 1 + d % 28)
     def content(n):
         counter[0] += 1
@@ -113,7 +115,11 @@ def gen_script(rng):
             continue
         ops = commit()
         if ops:
-            steps.append(["commit", rng.choice(AUTHORS), date(), rng.choice(SUBJECTS), ops])
+            subj = rng.choice(SUBJECTS)
+            if rng.random() < 0.02:
+                # a dependency bump whose whole list sits in the first paragraph: git folds it into ONE header line of 70 KB
+                subj = "bump: " + " ".join("lib%04d-1.%d.%d" % (j, j % 7, j % 11) for j in range(5200))
+            steps.append(["commit", rng.choice(AUTHORS), date(), subj, ops])
     if not any(s[0] == "commit" for s in steps):
         steps.append(["commit", "A", date(), "init", [["write", "a.txt", content(3)]]])
     return steps
@@ -208,8 +214,11 @@ def cases(seed, tier):
             continue
         raw, cli, lib, truth = r
         exp = expected_from_truth(truth)
-        out.append({"name": "git-%d-cli" % i, "tags": ["real_git", "cli"], "input": [raw, exp], "impl_out": cli, "script": s})
-        out.append({"name": "git-%d-lib" % i, "tags": ["real_git", "library"], "input": [raw, exp], "impl_out": lib, "script": s})
+        big = any(len(ln) > 20000 for ln in raw.split("\n"))     # a 70 KB header line: judged by the decider alone
+        out.append({"name": "git-%d-cli" % i, "tags": ["real_git", "cli"] + (["long_line"] if big else []), "input": [raw, exp],
+                    "impl_out": cli, "script": s, "decider_only": big})
+        out.append({"name": "git-%d-lib" % i, "tags": ["real_git", "library"] + (["long_line"] if big else []), "input": [raw, exp],
+                    "impl_out": lib, "script": s, "decider_only": big})
     for i in range(n_syn):
         rng = vlib.rng_for(seed, ID, "synthetic", i)
         raw, exp = render_synthetic(rng)
